@@ -13,4 +13,5 @@ func newGates() *Gates                                          { return &Gates{
 func (g *Gates) Arm(point string)                               {}
 func (g *Gates) Parked(point string) <-chan struct{}            { return nil }
 func (g *Gates) Release(point string)                           {}
+func (g *Gates) at(point string)                                {}
 func wrapState(s distributed.State, g *Gates) distributed.State { return s }
